@@ -20,7 +20,7 @@ import (
 //     module's Run is recovered in main() and recorded as `recognised := false`, after the deferred
 //     flush has emitted the pinned fall-backs of everything not yet set.
 
-type factDef struct{ name, sig, body, doc string }
+type factDef struct{ name, sig, body, doc, pinBody, pinDoc string }
 
 type factSet struct {
 	x    *X
@@ -31,7 +31,7 @@ func newFacts(x *X) *factSet { return &factSet{x: x} }
 
 // pin declares a definition `def name sig := body` with its value on the pinned tree.
 func (fs *factSet) pin(name, sig, body, doc string) {
-	fs.list = append(fs.list, &factDef{name, sig, body, "fall-back (pinned): " + doc})
+	fs.list = append(fs.list, &factDef{name, sig, body, "fall-back (pinned): " + doc, body, "fall-back (pinned): " + doc})
 }
 
 // set replaces the body of a declared definition by the translation of the current source.
@@ -48,8 +48,15 @@ func (fs *factSet) set(name, body, doc string) {
 func (fs *factSet) flush() {
 	// parameters a definition does not use (e.g. `batchesCapped (n len : Int) : Int := len`) are deliberate
 	fs.x.emit("set_option linter.unusedVariables false\n\n")
+	// ALL OR NOTHING: when any shape of the module was not recognised, a model assembled from a mixture of
+	// current and pinned facts would be neither the code nor the pinned model; emit the pinned model whole.
+	allPinned := len(fs.x.why) > 0
 	for _, f := range fs.list {
-		fs.x.emit("/-- %s -/\ndef %s %s := %s\n", strings.ReplaceAll(f.doc, "-/", "- /"), f.name, f.sig, f.body)
+		body, doc := f.body, f.doc
+		if allPinned {
+			body, doc = f.pinBody, f.pinDoc
+		}
+		fs.x.emit("/-- %s -/\ndef %s %s := %s\n", strings.ReplaceAll(doc, "-/", "- /"), f.name, f.sig, body)
 	}
 }
 
